@@ -3,6 +3,7 @@
 //   drv_c05 freeze-big <dir> <seed>     (run ONCE, by hand, to create /verif/corpus_big: size-covering streams, see run_freeze_big)
 //   drv_c05 freeze-bounds <dir> <seed>  (run ONCE, by hand: streams on the representation boundaries, appended to /verif/corpus_big)
 //   drv_c05 freeze-handles <dir> <seed> <n>  (run ONCE, by hand: Edgebreaker streams with two topology-split events at one symbol, appended to /verif/corpus_big)
+//   drv_c05 freeze-mp <dir> <seed>      (run ONCE, by hand: streams of the deprecated multi-parallelogram prediction, appended to /verif/corpus_big)
 //   drv_c05 freeze-cmp <dir> <seed>     (run ONCE, by hand: Edgebreaker grids coded with the constrained multi-parallelogram scheme, appended to /verif/corpus)
 //   drv_c05 freeze-lkq <dir> <seed>     (run ONCE, by hand: bitstream-2.2 kd-tree clouds of the float tree method, appended to /verif/corpus)
 //   drv_c05 freeze-kd <dir> <seed>      (run ONCE, by hand: small kD-tree clouds at the highest tree level, appended to /verif/corpus)
@@ -288,6 +289,54 @@ static int run_freeze_cmp(const std::string &dir, uint64_t seed) {
   return 0;
 }
 
+// Streams that use the deprecated multi-parallelogram prediction (method 2): no encoder of this library version writes it, the decoder still reads it.
+// Made from Edgebreaker grids coded with the parallelogram scheme by rewriting the method byte of the position attribute (1 -> 2; the corrections are
+// then read by the other predictor: the decoded values are whatever the unchanged decoder makes of them, which is what gets frozen).  Appended to <dir>.
+static int run_freeze_mp(const std::string &dir, uint64_t seed) {
+  vrt::Rng r(seed);
+  std::ofstream idx(dir + "/index.ndjson", std::ios::app);
+  long k = 0;
+  for (int side : {8, 11, 14}) {
+    for (int speed : {3, 5}) {
+      Geom g; g.is_mesh = true; g.pc.reset(new Mesh()); g.shape = "grid-diag";
+      const int np = side * side;
+      g.pc->set_num_points(np);
+      AttDesc d{GeometryAttribute::POSITION, DT_INT32, 3, false, true, np};
+      const int id = add_attribute(g.pc.get(), d, np);
+      for (int y = 0; y < side; ++y) for (int x = 0; x < side; ++x) { const int32_t p[3] = {x * 8 + (int32_t)r.below(5), y * 8 + (int32_t)r.below(5), (int32_t)r.below(9)}; g.pc->attribute(id)->SetAttributeValue(AttributeValueIndex(y * side + x), p); }
+      for (int y = 0; y + 1 < side; ++y) for (int x = 0; x + 1 < side; ++x) {
+        const int a = y * side + x, b = a + 1, c = a + side, e = c + 1;
+        Mesh::Face f1, f2;
+        if (r.coin()) { f1[0] = PointIndex(a); f1[1] = PointIndex(b); f1[2] = PointIndex(c); f2[0] = PointIndex(b); f2[1] = PointIndex(e); f2[2] = PointIndex(c); }
+        else { f1[0] = PointIndex(a); f1[1] = PointIndex(b); f1[2] = PointIndex(e); f2[0] = PointIndex(a); f2[1] = PointIndex(e); f2[2] = PointIndex(c); }
+        g.mesh()->AddFace(f1); g.mesh()->AddFace(f2);
+      }
+      Opt o; o.expert = true; o.method = 1; o.es = o.ds = speed; o.qbits.assign(1, 0); o.pred = MESH_PREDICTION_PARALLELOGRAM;
+      Encoded e = encode(g, o);
+      if (!e.ok) { fprintf(stderr, "skip: %s\n", e.err.c_str()); continue; }
+      Decoded d0 = decode(e.bytes.data(), e.bytes.size());
+      if (!d0.ok) continue;
+      const uint64_t h0 = geom_digest(*d0.pc, d0.is_mesh);
+      bool done = false;
+      for (size_t off = 11; off + 1 < e.bytes.size() && !done; ++off) {
+        if (e.bytes[off] != 1 || e.bytes[off + 1] != 1) continue;
+        std::vector<char> b2 = e.bytes;
+        b2[off] = 2;
+        Decoded dd = decode(b2.data(), b2.size());
+        if (!dd.ok || dd.pc->num_points() != d0.pc->num_points() || geom_digest(*dd.pc, dd.is_mesh) == h0) continue;
+        char name[64]; snprintf(name, sizeof name, "p%04ld.drc", k++);
+        std::ofstream f(dir + "/" + name, std::ios::binary); f.write(b2.data(), b2.size());
+        idx << "{\"file\":\"" << name << "\",\"digest\":" << h64(geom_digest(*dd.pc, dd.is_mesh)) << ",\"np\":" << dd.pc->num_points() << ",\"nf\":" << dd.mesh()->num_faces() << ",\"gt\":\"legacy\",\"ver\":514"
+            << ",\"what\":\"multi-parallelogram prediction (method byte at " << off << " rewritten 1 -> 2), " << side << "x" << side << " grid\",\"bytes\":" << b2.size() << "}\n";
+        done = true;
+      }
+      if (!done) fprintf(stderr, "no method byte found for side %d speed %d\n", side, speed);
+    }
+  }
+  fprintf(stderr, "froze %ld multi-parallelogram streams\n", k);
+  return 0;
+}
+
 // Streams whose Edgebreaker traversal closes several handle / hole loops: wrapped grids with removed quads (GenParams::handles).  Kept: streams
 // in which ONE symbol is the source of two topology-split events (read from the stream's own event table), and a few with three or more events.
 static int run_freeze_handles(const std::string &dir, uint64_t seed, long want) {
@@ -548,6 +597,7 @@ int main(int argc, char **argv) {
   if (argc >= 4 && !strcmp(argv[1], "freeze-wide-charts")) return run_freeze_wide_charts(argv[2], strtoull(argv[3], 0, 10));
   if (argc >= 5 && !strcmp(argv[1], "freeze-islands")) return run_freeze_islands(argv[2], strtoull(argv[3], 0, 10), atol(argv[4]));
   if (argc >= 4 && !strcmp(argv[1], "freeze-bounds")) return run_freeze_bounds(argv[2], strtoull(argv[3], 0, 10));
+  if (argc >= 4 && !strcmp(argv[1], "freeze-mp")) return run_freeze_mp(argv[2], strtoull(argv[3], 0, 10));
   if (argc >= 4 && !strcmp(argv[1], "freeze-cmp")) return run_freeze_cmp(argv[2], strtoull(argv[3], 0, 10));
   if (argc >= 4 && !strcmp(argv[1], "freeze-lkq")) return run_freeze_lkq(argv[2], strtoull(argv[3], 0, 10));
   if (argc >= 4 && !strcmp(argv[1], "freeze-kd")) return run_freeze_kd(argv[2], strtoull(argv[3], 0, 10));
